@@ -11,7 +11,8 @@ out.append("Two sources. (1) **Independent seeded changes** (`seeded/<id>/`): wr
            "worktree (results in `meta.json`). `bin/seed_matrix` applies each to a scratch copy of the current tree and runs the\n"
            "property's quick check. (2) **Scripted mutants** (`mutants/Cxx.json`): single edits written alongside each rule module, run by\n"
            "`python3 -m rules.selftest Cxx` and by the thorough tier. A change counts as caught only when the check exits 1 with a\n"
-           "VIOLATION line whose rule names the broken clause.\n")
+           "VIOLATION line whose rule names the broken clause. Round 2 (`Cxx-2a/b/c`): three further changes per property, each\n"
+           "attacking a different clause; the ones a check missed at first are listed in section 9 with the rule that was added.\n")
 out.append("\n| seed | what it breaks (needs …) | caught by | first rule(s) |\n|---|---|---|---|")
 sd = os.path.join(VERIF, "seeded")
 for d in sorted(os.listdir(sd)):
@@ -22,7 +23,8 @@ for d in sorted(os.listdir(sd)):
     det = m.get("detected_by", {})
     if not isinstance(det, dict):
         det = {"status": str(det), "rules": []}
-    out.append("| %s | %s *(needs: %s)* | %s | %s |" % (d, m["breaks"].replace("|", "/"), m["needs_to_manifest"].replace("|", "/"),
+    needs = m.get("needs_to_manifest") or "see seeded/%s/README.md" % d
+    out.append("| %s | %s *(needs: %s)* | %s | %s |" % (d, m["breaks"].replace("|", "/"), needs.replace("|", "/"),
                                                        "`bin/check %s`: %s" % (m["property"], det.get("status")), ", ".join(det.get("rules", []))))
 out.append("\nScripted mutants (all caught on the current tree unless marked):\n")
 for f in sorted(os.listdir(os.path.join(VERIF, "mutants"))):
